@@ -403,6 +403,7 @@ func (in *Interp) runPath(fn *ssa.Function, prefix []decision, baseCfg *HarnessC
 	in.sch, in.mus, in.wgs = nil, nil, nil
 	in.st.idealHash, in.st.nodeSep = false, false
 	in.timers, in.now, in.timerFires, in.selectAny, in.realPools = nil, 0, 0, false, false
+	in.preempt, in.preemptions = 0, 0
 	in.mergeSet = append(in.mergeSet[:0], defaultMergeSet...)
 	in.journal = in.journal[:0]
 	in.journalOn = true
